@@ -44,11 +44,14 @@ CONSTANTS NR,        \* replicas 1..NR
           MaxLog,
           Store,     \* TRUE: CRDTStore gossip; FALSE: plain objects
           Dup,       \* TRUE: a delivered gossip message stays deliverable
-          Dev
+          DevC       \* deviations switched on (initial value of dev)
 
 R == 1..NR
-VARIABLES kind, rep, ops, net, nmsg, steps
-vars == <<kind, rep, ops, net, nmsg, steps>>
+VARIABLES kind, rep, ops, net, nmsg, steps,
+          dev        \* deviation set, constant along a behaviour (a variable so that the trace
+                     \* spec can choose it per trace)
+vars == <<kind, rep, ops, net, nmsg, steps, dev>>
+Dev == dev
 
 Str(e) == IF e = "#1" THEN "1" ELSE e
 AllElems == Elems \cup { Str(e) : e \in Elems }
@@ -128,7 +131,7 @@ ObsAdds(K, e) == { i \in K : ops[i].k = "add" /\ ops[i].e = e }
 OpRec(k, r, n, v, ts, e, obs) == [k |-> k, r |-> r, n |-> n, v |-> v, ts |-> ts, e |-> e, obs |-> obs]
 NoTs == <<0, 0, 0>>
 
-Step == steps' = steps + 1
+Step == steps' = steps + 1 /\ UNCHANGED dev
 Budget == steps < MaxSteps
 
 IncG(r, n) == kind \in {"G", "PN"} /\ n >= 1
@@ -154,21 +157,21 @@ RemE(r, e) == /\ rep' = [rep EXCEPT ![r] = RemS(@, r, e)]
               /\ UNCHANGED <<kind, net, nmsg>>
 
 (* ------------------------------ plain objects ---------------------------- *)
-MergeG(a, b) == ~Store /\ rep[a].has /\ rep[b].has
+MergeG(a, b) == rep[a].has /\ rep[b].has
 MergeE(a, b) == /\ rep' = [rep EXCEPT ![a] = MergeInto(kind, @, rep[b])]
                 /\ UNCHANGED <<kind, ops, net, nmsg>>
-RoundTripG(r) == ~Store /\ rep[r].has /\ ~Collide(rep[r])
+RoundTripG(r) == rep[r].has /\ ~Collide(rep[r])
 RoundTripE(r) == /\ rep' = [rep EXCEPT ![r] = RT(kind, @)]
                  /\ UNCHANGED <<kind, ops, net, nmsg>>
 
 (* ------------------------------ store gossip ----------------------------- *)
 Msg(i) == CHOOSE m \in net : m.id = i
 HasMsg(i, t) == \E m \in net : m.id = i /\ m.t = t
-TickG(a, b) == Store /\ a # b
+TickG(a, b) == a # b
 TickE(a, b) == /\ net' = net \cup {[id |-> nmsg + 1, t |-> "push", src |-> a, dst |-> b, S |-> rep[a]]}
                /\ nmsg' = nmsg + 1
                /\ UNCHANGED <<kind, rep, ops>>
-DeliverPushG(i) == Store /\ HasMsg(i, "push") /\ ~Collide(Msg(i).S)
+DeliverPushG(i) == HasMsg(i, "push") /\ ~Collide(Msg(i).S)
 DeliverPushE(i) ==
     LET m == Msg(i)
         S2 == Receive(kind, rep[m.dst], m.dst, m.S)
@@ -177,7 +180,7 @@ DeliverPushE(i) ==
                  \cup {[id |-> nmsg + 1, t |-> "resp", src |-> m.dst, dst |-> m.src, S |-> S2]}
        /\ nmsg' = nmsg + 1
        /\ UNCHANGED <<kind, ops>>
-DeliverRespG(i) == Store /\ HasMsg(i, "resp") /\ ~Collide(Msg(i).S)
+DeliverRespG(i) == HasMsg(i, "resp") /\ ~Collide(Msg(i).S)
 DeliverRespE(i) ==
     LET m == Msg(i) IN
     /\ rep' = [rep EXCEPT ![m.dst] = Receive(kind, @, m.dst, m.S)]
@@ -190,16 +193,16 @@ Dec(r, n) == Budget /\ DecG(r, n) /\ DecE(r, n) /\ Step
 SetReg(r, v, p, l) == Budget /\ SetG(r, v, <<p, l, r>>) /\ SetE(r, v, <<p, l, r>>) /\ Step
 Add(r, e) == Budget /\ AddG(r, e) /\ AddE(r, e) /\ Step
 Rem(r, e) == Budget /\ RemG(r, e) /\ RemE(r, e) /\ Step
-Merge(a, b) == Budget /\ MergeG(a, b) /\ MergeE(a, b) /\ Step
-RoundTrip(r) == Budget /\ RoundTripG(r) /\ RoundTripE(r) /\ Step
-Tick(a, b) == Budget /\ TickG(a, b) /\ TickE(a, b) /\ Step
-DeliverPush(i) == Budget /\ DeliverPushG(i) /\ DeliverPushE(i) /\ Step
-DeliverResp(i) == Budget /\ DeliverRespG(i) /\ DeliverRespE(i) /\ Step
+Merge(a, b) == ~Store /\ Budget /\ MergeG(a, b) /\ MergeE(a, b) /\ Step
+RoundTrip(r) == ~Store /\ Budget /\ RoundTripG(r) /\ RoundTripE(r) /\ Step
+Tick(a, b) == Store /\ Budget /\ TickG(a, b) /\ TickE(a, b) /\ Step
+DeliverPush(i) == Store /\ Budget /\ DeliverPushG(i) /\ DeliverPushE(i) /\ Step
+DeliverResp(i) == Store /\ Budget /\ DeliverRespG(i) /\ DeliverRespE(i) /\ Step
 
 Init ==
     /\ kind \in Kinds
     /\ rep = [r \in R |-> IF Store THEN Blank(r) ELSE [Blank(r) EXCEPT !.has = TRUE]]
-    /\ ops = <<>> /\ net = {} /\ nmsg = 0 /\ steps = 0
+    /\ ops = <<>> /\ net = {} /\ nmsg = 0 /\ steps = 0 /\ dev = DevC
 
 Next ==
     \/ \E r \in R, n \in 1..MaxInc : Inc(r, n) \/ Dec(r, n)
@@ -212,17 +215,21 @@ Next ==
 Spec == Init /\ [][Next]_vars
 
 (* ---------------- reference values (op-based specification) -------------- *)
-RECURSIVE SumOps(_, _, _)
-SumOps(K, k, i) == IF i = 0 THEN 0
-                   ELSE (IF i \in K /\ ops[i].k = k THEN ops[i].n ELSE 0) + SumOps(K, k, i - 1)
-SpecCounter(K) == SumOps(K, "inc", Len(ops)) - SumOps(K, "dec", Len(ops))
+\* parameterised by the op log o so that the trace spec can apply them to ops'
+RECURSIVE SumOpsO(_, _, _, _)
+SumOpsO(o, K, k, i) == IF i = 0 THEN 0
+                       ELSE (IF i \in K /\ o[i].k = k THEN o[i].n ELSE 0) + SumOpsO(o, K, k, i - 1)
+SpecCounterO(o, K) == SumOpsO(o, K, "inc", Len(o)) - SumOpsO(o, K, "dec", Len(o))
 \* e is in the set exactly when some add of e was not observed by a remove
-SpecOR(K) == { e \in AllElems : \E i \in K :
-                 /\ ops[i].k = "add" /\ ops[i].e = e
-                 /\ ~\E j \in K : ops[j].k = "rem" /\ ops[j].e = e /\ i \in ops[j].obs }
-SpecLWW(K) == LET W == { i \in K : ops[i].k = "set" } IN
-              IF W = {} THEN "none"
-              ELSE ops[CHOOSE i \in W : \A j \in W : j = i \/ TsLess(ops[j].ts, ops[i].ts)].v
+SpecORO(o, K) == { e \in AllElems : \E i \in K :
+                     /\ o[i].k = "add" /\ o[i].e = e
+                     /\ ~\E j \in K : o[j].k = "rem" /\ o[j].e = e /\ i \in o[j].obs }
+SpecLWWO(o, K) == LET W == { i \in K : o[i].k = "set" } IN
+                  IF W = {} THEN "none"
+                  ELSE o[CHOOSE i \in W : \A j \in W : j = i \/ TsLess(o[j].ts, o[i].ts)].v
+SpecCounter(K) == SpecCounterO(ops, K)
+SpecOR(K) == SpecORO(ops, K)
+SpecLWW(K) == SpecLWWO(ops, K)
 
 (* ------------------------ observable projections ------------------------- *)
 RECURSIVE SumF(_, _)
